@@ -58,6 +58,7 @@ def render(sc, vtool, log, extra=None):
         if rd:
             cmd += " --reads " + " ".join(rd)
         cmd += " --outs " + " ".join(all_outs(st))
+        cmd += st.get("shell_suffix", "")          # e.g. "; kill -KILL $$$$": the spawned shell itself dies by a signal
         L.append("rule r_%s" % st["id"])
         L.append("  command = %s" % cmd)
         if st.get("description"):
@@ -91,8 +92,15 @@ def render(sc, vtool, log, extra=None):
             L.append("  pool = %s" % st["pool"])
         if st["dyndep"]:
             L.append("  dyndep = %s" % st["dyndep"])
+    if sc.get("regen_manifest"):
+        # the manifest is itself a build output (generator rule): regenerating it = touching it, after leaving a trace in
+        # the event log and on disk so that a tool that runs the generator is seen
+        L.append("rule r_regen")
+        L.append("  command = %s --log %s --id build.ninja --key regen --nocmd --reads build.ninja.in --outs .regen.out && touch build.ninja" % (vtool, log))
+        L.append("  generator = 1")
+        L.append("build build.ninja: r_regen build.ninja.in")
     if sc.get("defaults"):
-        L.append("default " + " ".join(sc["defaults"]))
+        L.append("default " + " ".join(sc["defaults"]) + (" build.ninja" if sc.get("regen_manifest") else ""))
     return "\n".join(L) + "\n"
 
 
@@ -408,11 +416,135 @@ def c06_case(ctx, seed):
         t.close()
 
 
+def c06_simultaneous_case(ctx, seed, attempt=0):
+    """Two commands finish while ninja is not looking (it is stopped, as when the machine is busy), so that ninja sees both
+    completions in one wake-up, with a FIFO jobserver and more ready commands than tokens.  Both must be reaped at once:
+    the waiting commands start together (no slot idles behind a finished command), and when the first one reaped is a
+    failure that ends the build, ninja must still terminate and return every token."""
+    from .simlib import St
+    rng = random.Random(seed)
+    variant = rng.choice(("idle", "idle", "terminate"))
+    sc = {"id": "C06s-%d" % seed, "sources": {}, "stmts": [], "pools": {}, "defaults": []}
+    names = ["a", "b", "c", "d"]
+    for nm in names:
+        sc["sources"][nm + ".c"] = "// %s\n" % nm
+        st = St(nm, ["o/%s.o" % nm], ins=[nm + ".c"])
+        st["vtool_args"] = ["--wait-for", "gate"] if nm in "ab" else ["--sleep-after", "1500"]
+        sc["stmts"].append(st)
+    # c and d come after a and b in the plan only through the token shortage (2 slots: the implicit one + 1 token)
+    failing = None
+    if variant == "terminate":
+        failing = rng.choice("ab")
+        next(s_ for s_ in sc["stmts"] if s_["id"] == failing)["vtool_args"] += ["--exit", "3"]
+        sc["stmts"] = [s_ for s_ in sc["stmts"] if s_["id"] in "ab"]
+        # one more ready command that can never get a token keeps ninja watching the jobserver
+        sc["sources"]["e.c"] = "// e\n"
+        sc["stmts"].append(St("e", ["o/e.o"], ins=["e.c"]))
+    t = Tree(sc)
+    rep = {"seed": seed, "variant": variant}
+    what = "e2e simultaneous-completion scenario %d (%s)" % (seed, variant)
+    fifo = os.path.join(t.d, ".jobserver.fifo")
+    fd = None
+    p = None
+    try:
+        rep["manifest"] = open(t.path("build.ninja")).read()
+        os.mkfifo(fifo)
+        fd = os.open(fifo, os.O_RDWR | os.O_NONBLOCK)
+        os.write(fd, b"+")
+        env = {"MAKEFLAGS": " -j2 --jobserver-auth=fifo:%s" % fifo}
+        p = t.popen(["-k", "1"], env=env)
+        # wait until a and b run
+        for _ in range(3000):
+            if {e["id"] for e in t.events() if e["e"] == "S"} >= {"o/a.o", "o/b.o"}:
+                break
+            if p.poll() is not None:
+                break
+            time.sleep(0.005)
+        else:
+            ctx.inconclusive += 1
+            return
+        if p.poll() is not None:
+            ctx.inconclusive += 1
+            return
+        os.kill(p.pid, signal.SIGSTOP)
+        t.write("gate", "open\n")
+        for _ in range(3000):       # both commands finish while ninja is stopped
+            ended = {e["id"] for e in t.events() if e["e"] in ("E", "K")}
+            if ended >= {"o/a.o", "o/b.o"}:
+                break
+            time.sleep(0.005)
+        time.sleep(0.2)
+        os.kill(p.pid, signal.SIGCONT)
+        try:
+            so, se = p.communicate(timeout=45)
+        except subprocess.TimeoutExpired:
+            os.killpg(p.pid, signal.SIGKILL)
+            p.communicate()
+            if attempt == 0:
+                ctx.count("e2e_simultaneous_retry_after_timeout")
+                t.close()
+                return c06_simultaneous_case(ctx, seed, attempt=1)
+            ctx.violation("C06/e2e-ninja-does-not-terminate/simultaneous-completion-%s" % variant,
+                          "%s: ninja still runs 45 s after both commands ended (twice)" % what, rep)
+            return
+        rc = p.returncode
+        ctx.evaluations += 1
+        txt = (so + se).decode("latin-1")
+        sig = util.san_signature(txt)
+        if sig:
+            ctx.violation("C06/e2e-sanitizer/" + sig, "%s: %s" % (what, txt[-1500:]), rep)
+            return
+        ev = t.events()
+        ctx.count("e2e_simultaneous_%s" % variant)
+        ctx.nontrivial(("simul", seed))
+        if variant == "idle":
+            st_ = {e["id"]: e["t"] for e in ev if e["e"] == "S"}
+            en_ = {e["id"]: e["t"] for e in ev if e["e"] in ("E", "K")}
+            if rc != 0 or not {"o/c.o", "o/d.o"} <= set(st_):
+                ctx.violation("C06/e2e-simultaneous-completion/build-failed", "%s: exit %s: %s" % (what, rc, txt[-300:]), rep)
+                return
+            first, second = sorted(("o/c.o", "o/d.o"), key=lambda o: st_[o])
+            # both slots are free once a and b are reaped: the second of c/d must not wait for the first to end (1.5 s)
+            if st_[second] >= en_[first]:
+                ctx.violation("C06/e2e-idle-slot/finished-command-not-reaped",
+                              "%s: %s started %.2f s after %s, only when %s had ended: a slot idled behind a finished command" %
+                              (what, second, st_[second] - st_[first], first, first), rep)
+                return
+        else:
+            if rc == 0:
+                ctx.violation("C06/e2e-simultaneous-completion/exit-zero", "%s: exit 0 although %s failed" % (what, failing), rep)
+                return
+        time.sleep(0.05)
+        got = 0
+        try:
+            while True:
+                b_ = os.read(fd, 64)
+                if not b_:
+                    break
+                got += len(b_)
+        except OSError:
+            pass
+        if got != 1:
+            ctx.violation("C06/e2e-fifo-tokens/simultaneous-completion", "%s: the FIFO held 1 token before and %d after ninja exited (rc %s)" % (what, got, rc), rep)
+            return
+    finally:
+        if p is not None and p.poll() is None:
+            try:
+                os.killpg(p.pid, signal.SIGKILL)
+            except OSError:
+                pass
+        if fd is not None:
+            os.close(fd)
+        t.close()
+
+
 def c06_scenarios(ctx):
     rng = random.Random(ctx.seed * 13 + 606)
     seeds = [rng.randint(1, 10 ** 9) for _ in range(48 if ctx.tier == "quick" else 1200)]
     from .checks.c07 import safe
     parallel(lambda s: safe(ctx, c06_case, ctx, s), seeds, workers=8)
+    seeds2 = [rng.randint(1, 10 ** 9) for _ in range(12 if ctx.tier == "quick" else 300)]
+    parallel(lambda s: safe(ctx, c06_simultaneous_case, ctx, s), seeds2, workers=6)
 
 
 # ------------------------------------------------------------------------------------------ C08: the real binary's log paths
@@ -514,3 +646,220 @@ def c08_scenarios(ctx):
     seeds = [rng.randint(1, 10 ** 9) for _ in range(16 if ctx.tier == "quick" else 300)]
     from .checks.c07 import safe
     parallel(lambda s: safe(ctx, c08_case, ctx, s), seeds)
+
+
+# ------------------------------------------------------------------------------------------ C16: response files on the real disk
+def c16_rsp_case(ctx, seed):
+    """Response files through RealDiskInterface and real processes: a file may already be at the rspfile path (kept after a
+    failed command, kept by -d keeprsp, or plain stale) and may be longer than the new content; the command must still read
+    exactly the evaluated rspfile_content, the file is removed after success and kept - with exactly that content - after a
+    failure."""
+    rng = random.Random(seed)
+    g = gen.Gen(random.Random(rng.randint(0, 2 ** 60)), size=rng.randint(2, 5),
+                feat=dict(rsp=1.0, deps=0.2, dyndep=0.0, phony=0.1, generator=0.0, restat=0.1, pools=0.0, vals=0.0, chain=0.8))
+    sc = g.scenario("C16e-%d" % seed)
+    rsps = [s for s in sc["stmts"] if s["kind"] == "cmd" and s["rsp"]]
+    if not rsps:
+        return
+    t = Tree(sc)
+    rep = {"seed": seed}
+    try:
+        rep["manifest"] = open(t.path("build.ninja")).read()
+        what = "scenario %d" % seed
+        mode = rng.choice(("stale-file", "kept-after-failure", "keeprsp"))
+        rep["mode"] = mode
+        if mode == "stale-file":
+            for s in rsps:
+                if rng.random() < 0.7:
+                    t.write(s["rsp"], "STALE CONTENT " * rng.randint(1, 40) + "\n")
+        elif mode == "kept-after-failure":
+            # first build: some commands fail, ninja keeps their response files; then the content gets shorter
+            victims = [s for s in rsps if rng.random() < 0.6] or rsps[:1]
+            for s in sc["stmts"]:
+                if s["kind"] == "cmd" and s["rsp"]:
+                    s["rsp_content"] = "a rather long list of flags before the inputs: " + s["rsp_content"] + " and a long tail after them"
+            t.install(sc, extra={s["id"]: ["--exit", "3"] for s in victims})
+            rc, so, se = t.run(["-k", "0", "-j4"])
+            ctx.evaluations += 1
+            sig = util.san_signature((so + se).decode("latin-1"))
+            if sig:
+                ctx.violation("C16/e2e-sanitizer/" + sig, "%s: %s" % (what, (so + se).decode("latin-1")[-1200:]), rep)
+                return
+            ran0 = {e["id"] for e in t.events() if e["e"] == "S"}
+            for s in victims:
+                if s["outs"][0] not in ran0:
+                    continue
+                ctx.count("e2e_rsp_kept_checks")
+                got = t.read(s["rsp"])
+                if got is None or got.decode("latin-1") != simlib.rsp_string(s):
+                    ctx.violation("C16/e2e-rspfile-after-failure", "%s: after the command of %s failed its response file is %r, expected %r" %
+                                  (what, s["outs"][0], got, simlib.rsp_string(s)), rep)
+                    return
+            for s in sc["stmts"]:
+                if s["kind"] == "cmd" and s["rsp"]:
+                    s["rsp_content"] = rng.choice(["$in", "-o $out $in", "$in_newline"])
+            t.install(sc)
+        else:
+            for s in sc["stmts"]:
+                if s["kind"] == "cmd" and s["rsp"]:
+                    s["rsp_content"] = "long long long long long long long prefix " + s["rsp_content"]
+            t.install(sc)
+            rc, so, se = t.run(["-d", "keeprsp", "-j4"])
+            ctx.evaluations += 1
+            ran0 = {e["id"] for e in t.events() if e["e"] == "S"}
+            for s in rsps:
+                if s["outs"][0] not in ran0:
+                    continue
+                ctx.count("e2e_rsp_kept_checks")
+                got = t.read(s["rsp"])
+                if rc == 0 and (got is None or got.decode("latin-1") != simlib.rsp_string(s)):
+                    ctx.violation("C16/e2e-rspfile-keeprsp", "%s: -d keeprsp left %r for %s, expected %r" % (what, got, s["outs"][0], simlib.rsp_string(s)), rep)
+                    return
+            for s in sc["stmts"]:
+                if s["kind"] == "cmd" and s["rsp"]:
+                    s["rsp_content"] = rng.choice(["$in", "$in_newline"])
+            t.install(sc)
+        rc, so, se = t.run(["-j4"])
+        ctx.evaluations += 1
+        if rc is None:
+            ctx.inconclusive += 1
+            return
+        sig = util.san_signature((so + se).decode("latin-1"))
+        if sig:
+            ctx.violation("C16/e2e-sanitizer/" + sig, "%s: %s" % (what, (so + se).decode("latin-1")[-1200:]), rep)
+            return
+        if rc != 0:
+            ctx.violation("C16/e2e-build-failed/%s" % mode, "%s (%s): exit %s: %s" % (what, mode, rc, (so + se).decode("latin-1")[-600:]), rep)
+            return
+        bad = compare_with_clean(sc, t)
+        if bad:
+            o, got, want = bad[0]
+            ctx.violation("C16/e2e-command-saw-wrong-rspfile/%s" % mode,
+                          "%s (%s): %s is %r, a command that read exactly the evaluated rspfile_content writes %r" % (what, mode, o, got, want), rep)
+            return
+        ran = {e["id"] for e in t.events(clear=False) if e["e"] == "S"}
+        for s in rsps:
+            if s["outs"][0] not in ran:
+                continue        # not part of the default targets
+            ctx.count("e2e_rsp_removed_checks")
+            if t.read(s["rsp"]) is not None:
+                ctx.violation("C16/e2e-rspfile-not-removed", "%s (%s): %s still exists after its command succeeded" % (what, mode, s["rsp"]), rep)
+                return
+        ctx.nontrivial(("e2e", seed))
+        ctx.count("e2e_rsp_scenarios_%s" % mode)
+    finally:
+        t.close()
+
+
+# ------------------------------------------------------------------------------------------ C05: real exit statuses
+SIGNUM = {"KILL": 9, "USR1": 10, "SEGV": 11, "USR2": 12, "PIPE": 13, "ALRM": 14, "ABRT": 6, "BUS": 7, "FPE": 8, "QUIT": 3}
+
+
+def c05_case(ctx, seed):
+    """Real processes that fail the way real tools fail: exit codes 1..255 and death by a signal (crash, OOM kill) of the
+    process ninja spawned, after having written their outputs or not.  Whatever the wait status looks like, such a command
+    has failed: dependents do not start, ninja's exit status is not 0 and comes from a failed command, nothing is recorded,
+    the next build retries."""
+    from .logmodel import parse_build_log, parse_deps_log, deps_view
+    rng = random.Random(seed)
+    g = gen.Gen(random.Random(rng.randint(0, 2 ** 60)), size=rng.randint(2, 6),
+                feat=dict(chain=0.9, deps=0.4, dyndep=0.0, phony=0.1, generator=0.0, restat=0.1, pools=0.0, vals=0.0, rsp=0.1, multi=0.2))
+    sc = g.scenario("C05e-%d" % seed)
+    cmds = [s for s in sc["stmts"] if s["kind"] == "cmd"]
+    if not cmds:
+        return
+    victims = rng.sample(cmds, rng.randint(1, min(2, len(cmds))))
+    how = {}
+    for v in victims:
+        if rng.random() < 0.6:
+            sig = rng.choice(sorted(SIGNUM))
+            # the shell ninja spawned kills itself (as when it exec()ed a tool that crashed)
+            v["shell_suffix"] = "; kill -%s $$$$" % sig
+            how[v["outs"][0]] = ("signal", 128 + SIGNUM[sig], True)
+        else:
+            code = rng.choice((1, 2, 3, 77, 126, 127, 128, 129, 131, 137, 255))
+            v["vtool_args"] = ["--exit", str(code)]
+            how[v["outs"][0]] = ("exit", code, True)
+    t = Tree(sc)
+    rep = {"seed": seed, "victims": {k: list(v) for k, v in how.items()}}
+    try:
+        rep["manifest"] = open(t.path("build.ninja")).read()
+        k = rng.choice((1, 2, 0))
+        args = ["-j%d" % rng.choice((1, 2, 4)), "-k", str(k)]
+        what = "scenario %d (%s; victims %s)" % (seed, " ".join(args), {o: h[:2] for o, h in how.items()})
+        rc, so, se = t.run(args)
+        ctx.evaluations += 1
+        if rc is None:
+            ctx.inconclusive += 1
+            return
+        sig = util.san_signature((so + se).decode("latin-1"))
+        if sig:
+            ctx.violation("C05/e2e-sanitizer/" + sig, "%s: %s" % (what, (so + se).decode("latin-1")[-1200:]), rep)
+            return
+        ev = t.events()
+        started = [e["id"] for e in ev if e["e"] == "S"]
+        failed = [o for o in how if o in started]
+        if not failed:
+            return          # victims not part of the default targets
+        ctx.nontrivial(("e2e", seed))
+        kinds = "+".join(sorted({how[o][0] for o in failed}))
+        ctx.count("e2e_failures_by_%s" % kinds)
+        graph = model.Graph(sc, sc["sources"])
+        fail_ids = {graph.producer[o]["id"] for o in failed}
+        if rc == 0:
+            ctx.violation("C05/e2e-exit-zero-after-failure/%s" % kinds, "%s: ninja exit 0 although %s failed" % (what, failed), rep)
+            return
+        if rc not in {how[o][1] for o in failed}:
+            ctx.violation("C05/e2e-exit-status-not-from-failed-command/%s" % kinds, "%s: exit %s, the failed commands ended with %s" %
+                          (what, rc, {o: how[o][1] for o in failed}), rep)
+            return
+        # dependents
+        def ancestors(sid):
+            anc, work = set(), [sid]
+            while work:
+                x = work.pop()
+                for f in graph.all_inputs(graph.by_id[x]):
+                    p_ = graph.producer.get(f)
+                    if p_ is not None and p_["id"] not in anc:
+                        anc.add(p_["id"])
+                        work.append(p_["id"])
+            return anc
+        for o in started:
+            sid = graph.producer[o]["id"]
+            bad = ancestors(sid) & fail_ids
+            if bad and sid not in fail_ids:
+                ctx.violation("C05/e2e-dependent-started/%s" % kinds, "%s: %s started although %s failed" % (what, o, sorted(bad)), rep)
+                return
+            ctx.count("e2e_dependent_checks")
+        # nothing recorded for the failed ones
+        log = t.read(".ninja_log") or b""
+        recs = parse_build_log(log)[1]
+        for o in failed:
+            ctx.count("e2e_log_checks")
+            for out in all_outs(graph.producer[o]):
+                if out.encode() in recs:
+                    ctx.violation("C05/e2e-failed-command-recorded/%s" % how[o][0], "%s: .ninja_log has a record for %s" % (what, out), rep)
+                    return
+        dl = t.read(".ninja_deps")
+        if dl:
+            dv = deps_view(parse_deps_log(dl))
+            for o in failed:
+                if o.encode() in dv:
+                    ctx.violation("C05/e2e-failed-command-deps-recorded/%s" % how[o][0], "%s: .ninja_deps has a record for %s" % (what, o), rep)
+                    return
+        # retried while the cause persists
+        t.events(clear=True)
+        rc2, so2, se2 = t.run(args)
+        ctx.evaluations += 1
+        ev2 = t.events()
+        started2 = {e["id"] for e in ev2 if e["e"] == "S"}
+        if rc2 == 0:
+            ctx.violation("C05/e2e-second-build-succeeds/%s" % kinds, "%s: the next build exits 0 although the cause persists: %s" %
+                          (what, (so2 + se2).decode("latin-1")[-300:]), rep)
+            return
+        if not (set(failed) & started2) and k != 1 or (k == 1 and not started2):
+            ctx.violation("C05/e2e-not-retried/%s" % kinds, "%s: the next build started %s, none of the failed %s" % (what, sorted(started2), failed), rep)
+            return
+        ctx.count("e2e_retries_checked")
+    finally:
+        t.close()
